@@ -146,6 +146,17 @@ class Gen:
 
     def udf_name(self):
         r = self.rng
+        tw = getattr(self, '_udf_twin', None)
+        if tw is not None and r.random() < 0.5:
+            # the 8-bit name with the bytes of a 16-bit name handed out earlier (two different names)
+            self._udf_twin = None
+            return tw
+        if r.random() < 0.04:
+            n = r.choice([1, 2, 5])
+            raw = bytes(b for _ in range(n) for b in (r.randint(0x4e, 0x7a), r.randint(0x30, 0x7a)))
+            name = raw.decode('utf-16-be')
+            self._udf_twin = raw.decode('latin-1')
+            return name
         if r.random() < 0.1:
             return self.uni_name(maxbytes=r.choice([100, 120, 126]), kind='udf')
         return self.uni_name(maxbytes=64, kind='udf')
